@@ -392,6 +392,7 @@ pub fn main_loop<C>(
         std::process::exit(0);
     };
 
+    let stride: u64 = std::env::var("BSV_CASE_STRIDE").ok().and_then(|s| s.parse().ok()).unwrap_or(1);
     let mut outs: Vec<Out> = Vec::new();
     std::thread::scope(|s| {
         let mut hs = Vec::new();
@@ -406,8 +407,12 @@ pub fn main_loop<C>(
                 let mut idx: u64 = 0;
                 gen(tier, seed, &mut |case: C| {
                     if idx == mine {
-                        out.case_hashes.insert(hash_case(&case));
-                        run_case(idx, &case, &mut out, run);
+                        // BSV_CASE_STRIDE=k executes only every k-th case: used for the (non-deciding)
+                        // coverage measurement with instrumented binaries, never by ./check
+                        if stride <= 1 || idx % stride == 0 {
+                            out.case_hashes.insert(hash_case(&case));
+                            run_case(idx, &case, &mut out, run);
+                        }
                         mine = next.fetch_add(1, Ordering::SeqCst);
                     }
                     idx += 1;
